@@ -21,6 +21,8 @@ from .core import CRASH_EXIT
 
 T0 = 1_000_000_000
 NS = 1_000_000_000
+# simulated times stay below T0 + ~2e6 s; the real clock is beyond this floor
+REAL_TIME_FLOOR = 1_500_000_000
 
 
 def _sha(path):
@@ -34,6 +36,7 @@ class SimDir:
         os.makedirs(self.path, exist_ok=True)
         self.clock_ns = T0 * NS
         self.clock = float(T0)
+        self.explicit_utimes = 0
         self.known = {}  # name -> (size, sha, mtime_ns as stamped)
         self.pinned = {}  # name -> mtime set by future-dating (survives sync)
 
@@ -88,7 +91,16 @@ class SimDir:
             k = self.known.get(n)
             if k is not None and k[2] == st.st_mtime_ns and k[0] == st.st_size:
                 continue
-            self.stamp(n, self.clock)
+            if st.st_mtime < REAL_TIME_FLOOR:
+                # The code under test set this mtime itself (os.utime): a plain
+                # write carries the real wall-clock time, which lies far above
+                # every simulated time.  Its value can only have been derived
+                # from the simulated mtimes of other files, so it is already in
+                # the simulated time domain: keep it.
+                self.known[n] = (st.st_size, _sha(p), st.st_mtime_ns)
+                self.explicit_utimes += 1
+            else:
+                self.stamp(n, self.clock)
             changed.append(n)
         return changed
 
@@ -170,7 +182,16 @@ class _Proxy:
 
     def close(self):
         self._e["closed"] = True
-        return self._f.close()
+        r = self._f.close()
+        ns = self._seam.now_ns
+        if ns is not None:
+            # the simulated file system reports simulated time at once, also to the
+            # process that has just written the file
+            try:
+                os.utime(self._e["abspath"], ns=(ns, ns))
+            except OSError:
+                pass
+        return r
 
     def __enter__(self):
         return self
@@ -192,9 +213,10 @@ class _Proxy:
 class WriteSeam:
     """fault = {'kind': crash|enospc|eio|eperm, 'target': suffix, 'offset': k}"""
 
-    def __init__(self, root, fault=None):
+    def __init__(self, root, fault=None, now_ns=None):
         self.root = os.path.realpath(root) + os.sep
         self.fault = fault
+        self.now_ns = now_ns
         self.log = []
         self.fired = None
         self._real = builtins.open
@@ -218,7 +240,8 @@ class WriteSeam:
         if not path.startswith(self.root):
             return self._real(file, mode, *args, **kwargs)
         name = path[len(self.root) :]
-        entry = {"path": name, "n": 0, "chunks": 0, "closed": False, "fault": None}
+        entry = {"path": name, "abspath": path, "n": 0, "chunks": 0, "closed": False,
+                 "fault": None}
         fault = None
         if self._armed and name.endswith(self.fault["target"]):
             self._armed = False
